@@ -322,3 +322,218 @@ Example C04_nonvacuous_second_call :
   payload_after p = mkTD (Some [(bs "EIP712Domain", Some [])]) (bs "EIP712Domain") (Some []) None
   /\ payload_after p <> p.
 Proof. split; [vm_compute; reflexivity | discriminate]. Qed.
+
+(* ======================================================================================================
+   Wave 5: C04 composed with C14 (value coercions) and C05 (the signer).  Proofs in
+   Eip712/ComposeJson.v, ComposeSign.v, ComposeAll.v; examples in ComposeExamples.v.
+   ====================================================================================================== *)
+From FFS Require Import Eip712.NumericProofs Eip712.SpellingProofs Eip712.ExactSpellingProofs Eip712.SpellingDocProofs.
+From FFS Require Import Eip712.ComposeJson Eip712.ComposeSign Eip712.ComposeAll.
+From FFS Require Base.Lit Base.Keccak Eip712.ComposeExamples.
+
+(* 8. The digest theorem for documents given as JSON TEXT-LEVEL values.  [represents_json td d]
+      (Eip712/ComposeJson.v) is [represents] with the atomic values read from their text instead of
+      through the coercion functions of Numeric.v / Coerce.v:
+        int<M>/uint<M>   a JSON number or string that is a [spelling] of z (C14's relation: canonical
+                         decimal / 0x-hex, or ANY text of the decimal / hex / scientific grammars that
+                         denotes z exactly with an exponent math/big expands: 1e18, 100.0, "+0x1F")
+                         stands for VInt z;
+        address, bytes, bytes<M>   a string of hex digit pairs, optionally after "0x" ([hex_denotes],
+                         defined from the digit values) stands for those bytes;
+        bool, string     as in [represents].
+      The math/big oracle does not occur in [represents_json]: the digest of the document is the
+      specification digest of the typed values its texts DENOTE, whatever the oracle answers. *)
+Theorem C04_digest_is_spec_from_json :
+  forall (H : bytes -> bytes) (big_other : bytes -> option Z) (td : typed_data) (d : doc),
+    represents_json td d -> wf_doc d -> types_dims_fit (d_types d) ->
+    EncodeTypedDataV4 H big_other (Some td) = Ok (digest H d).
+Proof. exact digest_is_spec_from_json. Qed.
+Print Assumptions C04_digest_is_spec_from_json.
+
+(* 8a. What the text-level reading adds to [represents]: every document read from its texts is a
+       document read through the coercions (C14's spelling_read for integers, 8b for hex). *)
+Theorem C04_json_reading_is_coercion :
+  forall (big_other : bytes -> option Z) (td : typed_data) (d : doc),
+    represents_json td d -> represents big_other td d.
+Proof. exact represents_json_represents. Qed.
+Print Assumptions C04_json_reading_is_coercion.
+
+(* 8b. hex -> bytes is exact: getBytesFromInterface (Coerce.get_bytes) accepts a string exactly when it
+       is hex digit pairs (either case), optionally after a lower-case "0x", and returns the bytes
+       those digits denote — nothing else is accepted, no other bytes are returned. *)
+Theorem C04_hex_text_exact :
+  forall (s b : bytes), get_bytes (GString s) = Ok b <-> hex_denotes s b.
+Proof. exact get_bytes_exact. Qed.
+Print Assumptions C04_hex_text_exact.
+
+(* 8c. Rejection.  [doc_reaches td f tn v]: following the document from a member of the domain, or of
+       the message when the primary type is not EIP712Domain, through struct members and array
+       elements as encodeElement does, one arrives at the value v to be encoded at type name tn.  If
+       that type is an integer type and v is a numeric text (as a JSON number or inside a string) of
+       the decimal / hex / scientific grammars that denotes NO integer in range of the type — a
+       fraction, m*10^e that is not integral, a value outside int<M>/uint<M> — then the document is
+       refused with an error, whatever the rest of the document is.  (C14_inexact_rejected lifted
+       from one element to the whole document.) *)
+Theorem C04_digest_is_spec_from_json_rejects :
+  forall (H : bytes -> bytes) (big_other : bytes -> option Z) (td : typed_data)
+         (f : nat) (tn : bytes) (tc : etc) (t : bytes) (v : gval),
+    doc_reaches td f tn v -> (v = GNumber t \/ v = GString t) ->
+    integer_member_type (effective_types (td_types td)) tn tc ->
+    classify t <> COther /\
+    (forall z, text_denotes t z -> in_range (is_signed (e_base tc)) (e_m tc) z = false) ->
+    exists e, EncodeTypedDataV4 H big_other (Some td) = Err e.
+Proof. exact rejects_inexact_from_json. Qed.
+Print Assumptions C04_digest_is_spec_from_json_rejects.
+
+(* 8d. The same for hex text: a position of type address / bytes / bytes<M> ([hex_member_type]) holding
+       anything but a string of hex digit pairs, optionally after "0x", makes the document an error. *)
+Theorem C04_bad_hex_rejected_from_json :
+  forall (H : bytes -> bytes) (big_other : bytes -> option Z) (td : typed_data)
+         (f : nat) (tn : bytes) (tc : etc) (v : gval),
+    doc_reaches td f tn v ->
+    (ends_with x5d tn = false /\ tlookup tn (effective_types (td_types td)) = None /\
+     abi_elementary_type tn = Ok tc /\ (e_base tc = EAddress \/ e_base tc = EBytes)) ->
+    (forall s b, v = GString s -> ~ hex_denotes s b) ->
+    exists e, EncodeTypedDataV4 H big_other (Some td) = Err e.
+Proof. exact rejects_bad_hex_from_json. Qed.
+Print Assumptions C04_bad_hex_rejected_from_json.
+
+(* 9. SignTypedDataV4 end to end (C04 + C05).  For every well-formed document, every key 1 <= d < n and
+      every group satisfying Ecdsa.laws whose order fits 32 bytes, with the signer being C05's model of
+      KeyPair.SignDirect for d: the call SUCCEEDS and returns R || S || V — 32 + 32 + 1 bytes, V in
+      {27,28}, R and S in [1, n-1], S in the lower half — over the EIP-712 specification digest of the
+      document; the pair verifies under d's public key, the 65 bytes decode to the signature, and
+      RecoverDirect from (digest, R, S, V) returns the address of d for every chain id in [0, 2^53].
+      Guards, made explicit:
+        [no_overflow]   C05's residual guard: no nonce point of the stream has an x coordinate >= n
+                        (for secp256k1 a fraction 2^-128 of the points; btcec then emits recovery code
+                        2/3, i.e. V = 29/30) — see 9a for what holds without it;
+        [nonce_found]   model only: one of the first [fuel] nonces of the stream yields a signature
+                        (ecdsa_sign fails only for k = 0 mod n, r = 0 or s = 0; btcec's loop is
+                        unbounded, the model's has [fuel] iterations). *)
+Theorem C04_sign_typed_data_end_to_end :
+  forall (o : group_ops), laws o -> (n o < Secp.Model.two256)%Z ->
+  forall (Hk : bytes -> bytes), (forall x, length (Hk x) = 32%nat) ->
+  forall (nonce : Z -> bytes -> nat -> Z) (fuel : nat) (d : Z), (1 <= d < n o)%Z ->
+  forall (H : bytes -> bytes) (big_other : bytes -> option Z) (td : typed_data) (doc : doc),
+    represents big_other td doc -> wf_doc doc -> types_dims_fit (d_types doc) ->
+    let m := digest H doc in
+    nonce_found o nonce fuel d m ->
+    Secp.Proofs.no_overflow o nonce d m ->
+    exists res sg,
+      SignTypedDataV4 H big_other (key_signer o nonce fuel d) (Some td) = Ok res /\
+      r_hash res = m /\
+      r_signatureRSV res = r_R res ++ r_S res ++ [n2b (Z.to_N (r_V res))] /\
+      length (r_R res) = 32%nat /\ length (r_S res) = 32%nat /\ length (r_signatureRSV res) = 65%nat /\
+      (r_V res = 27 \/ r_V res = 28)%Z /\
+      Secp.Model.DecodeCompactRSV (r_signatureRSV res) = Ok sg /\
+      Secp.Model.sV sg = r_V res /\
+      r_R res = Secp.Model.be_fixed 32 (Secp.Model.sR sg) /\ r_S res = Secp.Model.be_fixed 32 (Secp.Model.sS sg) /\
+      (1 <= Secp.Model.sR sg < n o)%Z /\ (1 <= Secp.Model.sS sg < n o)%Z /\ (2 * Secp.Model.sS sg <= n o)%Z /\
+      ecdsa_verify o (pub o d) (Secp.Model.hash_to_z m) (Secp.Model.sR sg) (Secp.Model.sS sg) = true /\
+      forall c, (0 <= c <= 2 ^ 53)%Z ->
+        Secp.Model.RecoverDirect o Hk sg m c = Ok (Secp.Proofs.addr_of o Hk (pub o d)).
+Proof. exact sign_typed_data_end_to_end. Qed.
+Print Assumptions C04_sign_typed_data_end_to_end.
+
+(* 9a. Without C05's guard: the call still succeeds with 65 bytes over the specification digest, low S,
+       a pair that verifies under d's key — but V may be 29/30 (the overflow case); V is 27/28 whenever
+       [no_overflow] holds, and recovery returns d's address exactly in the 27/28 case. *)
+Theorem C04_sign_typed_data_any_V :
+  forall (o : group_ops), laws o -> (n o < Secp.Model.two256)%Z ->
+  forall (Hk : bytes -> bytes), (forall x, length (Hk x) = 32%nat) ->
+  forall (nonce : Z -> bytes -> nat -> Z) (fuel : nat) (d : Z), (1 <= d < n o)%Z ->
+  forall (H : bytes -> bytes) (big_other : bytes -> option Z) (td : typed_data) (doc : doc),
+    represents big_other td doc -> wf_doc doc -> types_dims_fit (d_types doc) ->
+    let m := digest H doc in
+    nonce_found o nonce fuel d m ->
+    exists res sg,
+      SignTypedDataV4 H big_other (key_signer o nonce fuel d) (Some td) = Ok res /\
+      r_hash res = m /\ length (r_signatureRSV res) = 65%nat /\
+      Secp.Model.DecodeCompactRSV (r_signatureRSV res) = Ok sg /\ Secp.Model.sV sg = r_V res /\
+      (r_V res = 27 \/ r_V res = 28 \/ r_V res = 29 \/ r_V res = 30)%Z /\
+      (2 * Secp.Model.sS sg <= n o)%Z /\
+      ecdsa_verify o (pub o d) (Secp.Model.hash_to_z m) (Secp.Model.sR sg) (Secp.Model.sS sg) = true /\
+      (Secp.Proofs.no_overflow o nonce d m -> (r_V res = 27 \/ r_V res = 28)%Z) /\
+      ((r_V res = 27 \/ r_V res = 28)%Z -> forall c, (0 <= c <= 2 ^ 53)%Z ->
+         Secp.Model.RecoverDirect o Hk sg m c = Ok (Secp.Proofs.addr_of o Hk (pub o d))).
+Proof. exact sign_typed_data_any_V. Qed.
+Print Assumptions C04_sign_typed_data_any_V.
+
+(* 9b. 8 and 9 together: the document given as JSON text-level values. *)
+Theorem C04_sign_typed_data_end_to_end_from_json :
+  forall (o : group_ops), laws o -> (n o < Secp.Model.two256)%Z ->
+  forall (Hk : bytes -> bytes), (forall x, length (Hk x) = 32%nat) ->
+  forall (nonce : Z -> bytes -> nat -> Z) (fuel : nat) (d : Z), (1 <= d < n o)%Z ->
+  forall (H : bytes -> bytes) (big_other : bytes -> option Z) (td : typed_data) (doc : doc),
+    represents_json td doc -> wf_doc doc -> types_dims_fit (d_types doc) ->
+    let m := digest H doc in
+    nonce_found o nonce fuel d m ->
+    Secp.Proofs.no_overflow o nonce d m ->
+    exists res sg,
+      SignTypedDataV4 H big_other (key_signer o nonce fuel d) (Some td) = Ok res /\
+      r_hash res = m /\
+      r_signatureRSV res = r_R res ++ r_S res ++ [n2b (Z.to_N (r_V res))] /\
+      length (r_R res) = 32%nat /\ length (r_S res) = 32%nat /\ length (r_signatureRSV res) = 65%nat /\
+      (r_V res = 27 \/ r_V res = 28)%Z /\
+      Secp.Model.DecodeCompactRSV (r_signatureRSV res) = Ok sg /\
+      Secp.Model.sV sg = r_V res /\
+      r_R res = Secp.Model.be_fixed 32 (Secp.Model.sR sg) /\ r_S res = Secp.Model.be_fixed 32 (Secp.Model.sS sg) /\
+      (1 <= Secp.Model.sR sg < n o)%Z /\ (1 <= Secp.Model.sS sg < n o)%Z /\ (2 * Secp.Model.sS sg <= n o)%Z /\
+      ecdsa_verify o (pub o d) (Secp.Model.hash_to_z m) (Secp.Model.sR sg) (Secp.Model.sS sg) = true /\
+      forall c, (0 <= c <= 2 ^ 53)%Z ->
+        Secp.Model.RecoverDirect o Hk sg m c = Ok (Secp.Proofs.addr_of o Hk (pub o d)).
+Proof. exact sign_typed_data_end_to_end_from_json. Qed.
+Print Assumptions C04_sign_typed_data_end_to_end_from_json.
+
+(* ---------- non-vacuity of 8, 8c, 9 (Eip712/ComposeExamples.v) ---------- *)
+(* The Mail example published in EIP-712 with its chain id given as the JSON number 1.0e0
+   ([mail_td]); [mail_doc] is the specification document written out by hand (VInt 1, the addresses as
+   integers, the strings as bytes).  The text-level relation holds, the document is well formed, the
+   digest is the specification digest for every hash function, and with the executable Keccak-256 it
+   is the digest published in the EIP. *)
+Example C04_nonvacuous_from_json :
+  represents_json ComposeExamples.mail_td ComposeExamples.mail_doc /\
+  wf_doc ComposeExamples.mail_doc /\ types_dims_fit (d_types ComposeExamples.mail_doc) /\
+  (forall H big_other, EncodeTypedDataV4 H big_other (Some ComposeExamples.mail_td) = Ok (digest H ComposeExamples.mail_doc)) /\
+  (forall big_other, EncodeTypedDataV4 Keccak.keccak256 big_other (Some ComposeExamples.mail_td) =
+                     Ok (Lit.unhex "be609aee343fb3c4b28e1df9e632fca64fcfaede20f02e86244efddf30957bd2")).
+Proof. exact ComposeExamples.mail_from_json. Qed.
+
+(* the same document with the chain id spelled 1.5 (denotes no integer) or 1e78 (beyond uint256) is
+   refused, for every hash function and oracle *)
+Example C04_nonvacuous_rejected :
+  forall H big_other,
+  (exists e, EncodeTypedDataV4 H big_other (Some (ComposeExamples.mail_td_with (GNumber (bs "1.5")))) = Err e) /\
+  (exists e, EncodeTypedDataV4 H big_other (Some (ComposeExamples.mail_td_with (GNumber (bs "1e78")))) = Err e).
+Proof. exact ComposeExamples.mail_inexact_rejected. Qed.
+
+(* the hypotheses of 9 are met by the toy group of Crypto/Ecdsa.v (which satisfies the laws): key 5
+   signs the Mail document under Keccak-256 and recovery returns its address *)
+Example C04_nonvacuous_end_to_end :
+  laws Toy.ops /\
+  exists res sg,
+    SignTypedDataV4 Keccak.keccak256 (fun _ => None) (key_signer Toy.ops ComposeExamples.toyNonce 1 5%Z)
+                    (Some ComposeExamples.mail_td) = Ok res /\
+    r_hash res = Lit.unhex "be609aee343fb3c4b28e1df9e632fca64fcfaede20f02e86244efddf30957bd2" /\
+    length (r_signatureRSV res) = 65%nat /\ (r_V res = 27 \/ r_V res = 28)%Z /\
+    Secp.Model.DecodeCompactRSV (r_signatureRSV res) = Ok sg /\
+    (2 * Secp.Model.sS sg <= n Toy.ops)%Z /\
+    Secp.Model.RecoverDirect Toy.ops ComposeExamples.toyH sg (r_hash res) 1 =
+      Ok (Secp.Proofs.addr_of Toy.ops ComposeExamples.toyH (pub Toy.ops 5)).
+Proof. exact ComposeExamples.mail_signed_end_to_end. Qed.
+
+(* an order with no domain whose uint256[] holds 10^18 as 1e18, "0xde0b6b3a7640000", 1000000000000000000.0 and
+   "+1E18" and whose bytes4 tag is "0xdeadBEEF": the text-level relation holds with the hand-written
+   specification document (VArr of four VInt 10^18); with an element 1e-1 in the array (reached
+   through [rc_elem]) or the tag "0xdeadbeeg" the document is refused *)
+Example C04_nonvacuous_from_json_array :
+  (represents_json ComposeExamples.order_td ComposeExamples.order_doc /\
+   wf_doc ComposeExamples.order_doc /\ types_dims_fit (d_types ComposeExamples.order_doc) /\
+   (forall H big_other, EncodeTypedDataV4 H big_other (Some ComposeExamples.order_td) = Ok (digest H ComposeExamples.order_doc))) /\
+  (forall (H : bytes -> bytes) (big_other : bytes -> option Z),
+   (exists e, EncodeTypedDataV4 H big_other
+                (Some (ComposeExamples.order_td_with [GNumber (bs "1e18"); GNumber (bs "1e-1")] (GString (bs "0xdeadBEEF")))) = Err e) /\
+   (exists e, EncodeTypedDataV4 H big_other
+                (Some (ComposeExamples.order_td_with ComposeExamples.order_amounts (GString (bs "0xdeadbeeg")))) = Err e)).
+Proof. split; [exact ComposeExamples.order_from_json|exact ComposeExamples.order_bad_rejected]. Qed.
